@@ -334,15 +334,33 @@ def zerodiv(rc):
     the divide method must overwrite exactly the nan cells of the quotient with 0, after the division (belief-update message passing relies on it)."""
     repo = rc.repo
     f = repo.func(DF, "DiscreteFactor.divide")
-    work = shared.working_alias(f) or "phi"
-    divs = [n for n in walk_no_nested(f.node) if isinstance(n, ast.Assign) and tm.is_(n, "_W.values = _W.values / __D") is not None]
-    fixes = [n for n in walk_no_nested(f.node) if isinstance(n, ast.Assign) and tm.is_(n, "_W.values[__B.isnan(_W.values)] = 0") is not None]
-    rc.ob(f"divide: pointwise division at {[n.lineno for n in divs]}, 0/0 := 0 at {[n.lineno for n in fixes]}")
-    if not divs:
-        raise AnalysisError("DiscreteFactor.divide: pointwise division not found")
-    if not fixes or fixes[-1].lineno < divs[-1].lineno or tm.is_(fixes[-1], "_W.values[__B.isnan(_W.values)] = 0")["_W"] != tm.is_(divs[-1], "_W.values = _W.values / __D")["_W"]:
-        rc.fail(f, divs[-1], "after `values / values` the 0/0 cells are nan: the documented convention 0/0 := 0 must be applied to the quotient (else marginals computed through "
-                "divide, e.g. belief updates with exact zeros, come back as nan)", construct="divide 0/0 convention")
+    divs = [n for n in walk_no_nested(f.node) if isinstance(n, ast.Assign) and len(n.targets) == 1 and isinstance(n.value, ast.BinOp) and isinstance(n.value.op, ast.Div)
+            and norm(n.value.left).endswith(".values") and norm(n.value.right).endswith(".values")]
+    if len(divs) != 1:
+        raise AnalysisError(f"DiscreteFactor.divide: expected one pointwise division of two value tables, found {len(divs)}")
+    q = norm(divs[0].targets[0])          # where the quotient lives: `phi.values` or a local
+    fixes = []
+    for n in walk_no_nested(f.node):
+        if isinstance(n, ast.Assign) and isinstance(n.targets[0], ast.Subscript) and isinstance(n.value, ast.Constant) and n.value.value == 0:
+            sl = n.targets[0].slice
+            if isinstance(sl, ast.Call) and call_name(sl) == "isnan" and sl.args:
+                fixes.append((n, norm(n.targets[0].value), norm(sl.args[0])))
+    rc.ob(f"divide: quotient stored in `{q}` (line {divs[0].lineno}); 0/0 := 0 fix-ups {[(t, m) for _, t, m in fixes]}")
+    good = [n for n, tgt, mask in fixes if tgt == q and mask == q and n.lineno > divs[0].lineno]
+    if not good:
+        why = "no fix-up of the nan cells follows the division"
+        for n, tgt, mask in fixes:
+            if n.lineno < divs[0].lineno:
+                why = "the fix-up runs before the division"
+            elif mask != q:
+                why = f"the nan mask is computed on `{mask}`, not on the quotient `{q}` (the operands hold no nan, so nothing is fixed)"
+            elif tgt != q:
+                why = f"the fix-up writes into `{tgt}`, not into the quotient `{q}`"
+        rc.fail(f, divs[0], f"after `values / values` the 0/0 cells are nan: the documented convention 0/0 := 0 must be applied to the quotient — {why} (marginals computed "
+                "through divide, e.g. belief updates with exact zeros, come back as nan)", construct="divide 0/0 convention")
+    elif q.split(".")[0] not in ((shared.working_alias(f) or "phi"),) and not any(isinstance(n, ast.Assign) and norm(n.value) == q and norm(n.targets[0]).endswith(".values") and n.lineno > good[-1].lineno
+                                                                                    for n in walk_no_nested(f.node)):
+        rc.fail(f, divs[0], f"the fixed quotient `{q}` is never stored into the result's values", construct="divide quotient stored")
 
 
 @rule("C04.axes", "backend helpers tell `axis=None` (reduce over everything) from an empty axis tuple (reduce over nothing) by identity, never by truthiness", floor=1)
@@ -384,7 +402,20 @@ def defuse(rc):
     from . import shared as _sh
     _sh.defuse_rule(rc, _sh.anchor_files("C04"))
 
+
+@rule("C04.namefirst", "a caller's state is read as a NAME first; the raw value serves as a number only in the KeyError fallback of that lookup", floor=3)
+def namefirst(rc):
+    shared.name_first_rule(rc, (DF, "pgmpy/factors/discrete/CPD.py", SN, "pgmpy/factors/discrete/JointProbabilityDistribution.py"))
+
+
 MUTANTS = [
+    dict(kind="break", name="factor-product-dedup-by-value", file="pgmpy/factors/base.py", expect="C04.valuekey",
+         old="    if len(args) == 1:\n        return args[0].copy()", new="    args = tuple(dict.fromkeys(args))\n    if len(args) == 1:\n        return args[0].copy()"),
+    dict(kind="break", name="set-value-name-only-if-str", file=DF, expect="C04.namefirst",
+         old="            else:\n                try:\n                    index.append(self.name_to_no[var][kwargs[var]])\n                except (KeyError, TypeError):\n                    logger.info(f\"Using {var} state as number instead of name.\")\n                    index.append(kwargs[var])\n\n        self.values[tuple(index)] = value",
+         new="            elif isinstance(kwargs[var], str):\n                index.append(self.name_to_no[var][kwargs[var]])\n            else:\n                index.append(kwargs[var])\n\n        self.values[tuple(index)] = value"),
+    dict(kind="break", name="get-state-no-number-first", file=SN, expect="C04.namefirst",
+         old="        if self.state_names:\n            return self.name_to_no[var][state_name]", new="        if self.state_names:\n            if isinstance(state_name, int) and 0 <= state_name < len(self.state_names[var]):\n                return state_name\n            return self.name_to_no[var][state_name]"),
     dict(kind="break", name="state-maps-one-based", file=SN, expect="C04.coupled",
          old="                        name: no for no, name in enumerate(self.state_names[key])", new="                        name: no for no, name in enumerate(self.state_names[key], 1)"),
     dict(kind="break", name="default-states-from-first-cardinality", file=SN, expect="C04.coupled",
@@ -449,6 +480,10 @@ def valuekey(rc):
             if isinstance(n, ast.Call) and isinstance(n.func, ast.Name) and n.func.id in ("set", "frozenset") and n.args and dotted(n.args[0]) in ("args", "factors"):
                 n_sets += 1
                 rc.fail(h, n, f"{name}: `{norm(n)}` merges operands that compare equal (DiscreteFactor hashes/compares by value): f*g*g becomes f*g", construct=f"{name} set of factors")
+            if isinstance(n, ast.Call) and call_name(n) in ("fromkeys", "Counter", "unique") and n.args and dotted(n.args[0]) in ("args", "factors"):
+                n_sets += 1
+                rc.fail(h, n, f"{name}: `{norm(n)}` keys a mapping by the operands: equal factors (DiscreteFactor hashes/compares by value) are de-duplicated, f*g*g becomes f*g",
+                        construct=f"{name} operands de-duplicated by value")
             if isinstance(n, (ast.SetComp, ast.DictComp)) and any(dotted(g.iter) in ("args", "factors") for g in n.generators):
                 key = n.key if isinstance(n, ast.DictComp) else n.elt
                 if dotted(key) == dotted(n.generators[0].target):
